@@ -641,12 +641,28 @@ impl Story {
             .as_any()
             .downcast_ref::<VariableAssignment>()
         {
+            // Nothing to assign: a knot or function was entered with fewer arguments than it has parameters
+            if self.get_state().evaluation_stack.is_empty() {
+                return Err(StoryError::InvalidStoryState(format!(
+                    "No value to assign to '{}': was a knot or function called with too few arguments?",
+                    var_ass.variable_name
+                )));
+            }
+
             let assigned_val = self.get_state_mut().pop_evaluation_stack(); // When in temporary evaluation, don't create new variables purely
             // within
             // the temporary context, but attempt to create them globally
             // var prioritiseHigherInCallStack = _temporaryEvaluationContainer
             // != null;
-            let assigned_val = assigned_val.into_any().downcast::<Value>().unwrap();
+            let assigned_val = match assigned_val.into_any().downcast::<Value>() {
+                Ok(value) => value,
+                Err(_) => {
+                    return Err(StoryError::InvalidStoryState(format!(
+                        "Tried to assign something that is not a value to '{}' (a function that returns nothing?)",
+                        var_ass.variable_name
+                    )));
+                }
+            };
             self.get_state_mut()
                 .variables_state
                 .assign(var_ass, assigned_val)?;
